@@ -380,12 +380,28 @@ def c7_stateless_operation(ctx, res: Result, fi: FuncInfo, rule="C7-operation-ke
     s = ctx.eng.summary(fi)
     evs = [ev for ev in s.events if ev.kind in ("attr-store", "setattr", "callee") and ev.field and any(l == ("P", "self") for l in ev.locs) and ev.field not in allowed_fields]
     evs = [ev for ev in evs if ev.kind != "callee" or ev.field]
+    # in-place changes of an object held in a field of the receiver (`x = self._f; x += ...`)
+    for ev in s.events:
+        if ev.kind in ("aug", "sub-store", "mutator"):
+            for l in ev.locs:
+                r, steps = loc_steps(l)
+                fs = [st[1] for st in steps if st[0] == "f"]
+                if r == ("P", "self") and fs and fs[0] not in allowed_fields:
+                    ev2 = ev
+                    if not ev2.field:
+                        import dataclasses as _dc
+                        try:
+                            ev2 = _dc.replace(ev, field=fs[0])
+                        except Exception:  # noqa: BLE001
+                            ev2 = ev
+                    evs.append(ev2)
+                    break
     seen = set()
     for ev in evs:
         if ev.field in seen:
             continue
         seen.add(ev.field)
         res.bad(rule, f"{fi.qualname}:{ev.field}", ev.site(), fi.qualname,
-                f"{fi.qualname} assigns the receiver's field {ev.field} ({ev.detail[:80]}): a value derived from this call's arguments is kept on the object, so a later call can reuse it for a configuration it was not computed for", construct=src(ev.node)[:160])
+                f"{fi.qualname} {'changes in place the object held in' if ev.kind in ('aug', 'sub-store', 'mutator') else 'assigns'} the receiver's field {ev.field} ({ev.detail[:80]}): a value derived from this call's arguments is kept on the object, so a later call can reuse it for a configuration it was not computed for", construct=src(ev.node)[:160])
     if not evs:
         res.ok(rule, fi.qualname, fi.site(), fi.qualname, "assigns no field of its receiver")
